@@ -269,7 +269,9 @@ def finish(pid, tier, layers, crashes, infra_error, wall):
 
     out_lines = []
     n_viol = 0
-    rep_dir = os.path.join(VERIF, "replays", pid)
+    # a run against another tree (VERIF_REPO=...) leaves the committed evidence and replays alone
+    ART = VERIF if REPO == "/repo" else os.path.join(VERIF, ".work", "alt")
+    rep_dir = os.path.join(ART, "replays", pid)
     seen = set()
     for (layer, sig, detail, count) in viol:
         if (layer, sig) in seen:
@@ -307,8 +309,8 @@ def finish(pid, tier, layers, crashes, infra_error, wall):
         "level": prop["level"], "coverage": cov, "assumptions": assumptions,
         "wall_s": round(wall, 2), "violations": n_viol,
     }
-    os.makedirs(os.path.join(VERIF, "evidence"), exist_ok=True)
-    with open(os.path.join(VERIF, "evidence", pid + ".json"), "w") as fh:
+    os.makedirs(os.path.join(ART, "evidence"), exist_ok=True)
+    with open(os.path.join(ART, "evidence", pid + ".json"), "w") as fh:
         json.dump(evidence, fh, indent=1, default=str)
     for agg in bylayer.values():
         log("layer %-28s evals=%-9d nontrivial=%-8d outcomes=%-6d states=%-7d trans=%-8d exhaustive=%s %s wall=%.1fs" % (
